@@ -713,4 +713,4 @@ impl SidecarIndexBuilderV1 {
 
 #[cfg(kani)]
 #[path = "/verif/harness/ripd/continuity_seek_index.rs"]
-mod verif_kani;
+pub mod verif_kani;
